@@ -350,6 +350,8 @@ structure Gene where
   /-- position of the gene in the iteration order of `generate_domains` (all genes of all
       regions, also those without domains) -/
   index : Nat := 0
+  /-- `location.start` of the gene (only used to order the genes of a region) -/
+  start : Nat := 0
 deriving Repr
 
 structure GeneResult where
@@ -394,5 +396,21 @@ def chain (genes : List Gene) : Except Err (List GeneResult) :=
   match chainGo genes [] false with
   | .error e => .error e
   | .ok results => .ok (results.map fun r => { r with modules := r.modules.filter (fun m => m.components.length > 1) })
+
+/-- the order in which `region.cds_children` lists the genes of one region, given the genes in
+    record order (ascending start): for a region that crosses the origin of a circular record and
+    begins at coordinate `s`, the genes before the origin (start ≥ s) come first, then those after
+    it; otherwise record order.  `generate_domains` walks the genes in exactly this order. -/
+def regionGenes (cross : Option Nat) (genes : List Gene) : List Gene :=
+  match cross with
+  | none => genes
+  | some s => genes.filter (fun g => decide (g.start ≥ s)) ++ genes.filter (fun g => !decide (g.start ≥ s))
+
+/-- number the genes in iteration order -/
+def reindex (genes : List Gene) : List Gene := (genes.zipIdx).map fun (g, i) => { g with index := i }
+
+/-- `generate_domains` on one region -/
+def generateRegion (cross : Option Nat) (genes : List Gene) : Except Err (List GeneResult) :=
+  chain (reindex (regionGenes cross genes))
 
 end ASV.Modules
